@@ -232,7 +232,9 @@ impl World {
 
     fn stop(mut self) {
         self.conns.clear();
-        { let _g = self.rt.as_ref().unwrap().enter(); self.mgr.terminate(); }
+        // Manager::terminate waits, spinning, until every unit has closed its command channel. A case that stalled may have
+        // left a unit that no longer takes commands (that is what the stall reports): then the runtime is dropped with its tasks.
+        if self.stalled.is_none() { let _g = self.rt.as_ref().unwrap().enter(); self.mgr.terminate(); }
         if let Some(rt) = self.rt.take() { rt.shutdown_timeout(Duration::from_millis(500)); }
         if let Some(d) = self.dir.take() { if !debug() { let _ = std::fs::remove_dir_all(d); } }
     }
@@ -600,7 +602,7 @@ pub fn run_case(line: &str) -> String {
             _ => panic!("bad op {:?}", op),
         }
     }
-    let stalled = w.stalled.take();
+    let stalled = w.stalled.clone();
     w.stop();
     match stalled {
         Some(what) => format!("STALL {} | {}", what.replace(' ', "_"), out.join(" ")),
